@@ -35,6 +35,8 @@ fn variant_cfg(v: &str, seed: u64) -> Value {
         "P" => json!({"own": {"id": 5, "p2": 120}, "ports": [{"p2p": false, "asym": "asym"}, {"p2p": false, "asym": "asym"}], "seed": seed}),
         // slave-only from creation (the run-time setting is in every variant's alphabet; here the instance starts that way)
         "S" => json!({"own": {"id": 5, "so": true}, "ports": [{"p2p": false, "asym": "asym"}, {"p2p": false, "asym": "asym"}], "seed": seed}),
+        // port 2 announces every two seconds (its foreign masters age half as fast as port 1's), syncs twice a second, asks for the delay every four seconds
+        "K" => json!({"own": {"id": 5}, "ports": [{"p2p": false, "asym": "asym"}, {"p2p": false, "asym": "asym", "log_ann": 1, "log_sync": -1, "log_dreq": 2}], "seed": seed}),
         "M" => json!({"own": {"id": 5}, "ports": [{"p2p": false, "asym": "asym"}, {"p2p": false, "asym": "asym"}], "seed": seed}),
         "B" => json!({"own": {"id": 5, "ptrace": true}, "ports": [{"p2p": false, "asym": "asym"}, {"p2p": false, "mo": true, "asym": "asym"}], "seed": seed}),
         _ => json!({"own": {"id": 5}, "ports": [{"p2p": false, "aml": [2, 9], "asym": "asym"}, {"p2p": true, "asym": "asym"}, {"p2p": false, "mo": true, "asym": "asym"}], "seed": seed}),
